@@ -75,6 +75,7 @@ func (e *Engine) translate(u *Unit) {
 	}
 	if u.Own != nil && u.Own.Attrs["assumesafe"] {
 		x.assumeSafe = true
+		x.unitProps = u.Own.Props
 	}
 	var args []Val
 	for _, p := range fn.Params {
